@@ -55,6 +55,8 @@ def run(chk, repo, tier):
     G12 = chk.rule('G12', 'stepwise search: the peripheral step decision depends on the steps already taken; category and '
                           'repetition guards present', floor=2)
     C18b.run_g12(chk, G12, repo)
+    G13 = chk.rule('G13', 'search-space algebra: per-key set differences iterate over the keys of the minuend', floor=2)
+    C18b.run_g13(chk, G13, repo)
     G8 = chk.rule('G8', 'children[k] is not read unconditionally when the interpreter itself asserts that fewer '
                         'children are possible', floor=3)
 
